@@ -253,6 +253,7 @@ class LazyExtSet(list):
     def setup(self, bools):
         self.bools = bools       # dict name -> symbolic bool
         self.asked = []
+        self.resume = False
         return self
 
     def __contains__(self, name):
